@@ -561,8 +561,14 @@ Definition handle_clauses (s : srt) (o : line) (r : list bytes) : list bytes :=
   check (negb (accepted && Nat.eqb (length (live s)) 1 && Nat.eqb (length twins) 1)) "C17:twin-of-the-only-route-accepted" ++
   (match classify ic p with
    | PWf _ =>
-     check (accepted || negb mvalid || dup || negb (match twins with [] => true | _ => false end))
-           "C17:rejected-as-ambiguous-without-a-twin"
+     (* judged only while every live pattern is itself well-formed (e.g. /{-} is accepted by the code but
+        outside the property's quantifier, and can be the twin of a well-formed pattern) *)
+     match live_toks s with
+     | Some _ =>
+       check (accepted || negb mvalid || dup || negb (match twins with [] => true | _ => false end))
+             "C17:rejected-as-ambiguous-without-a-twin"
+     | None => []
+     end
    | PMalformed => check (negb accepted) "C17:malformed-pattern-accepted"
    | _ => []
    end) ++
@@ -576,8 +582,12 @@ Definition handle_clauses (s : srt) (o : line) (r : list bytes) : list bytes :=
                     end in
      if no_icpt then
        check (negb (accepted && negb synok)) "C05:handle-accepts-what-checksyntax-rejects" ++
-       check (accepted || negb synok || negb mvalid || dup || negb (match twins with [] => true | _ => false end))
-             "C05:handle-rejects-what-checksyntax-accepts"
+       match live_toks s with
+       | Some _ =>
+         check (accepted || negb synok || negb mvalid || dup || negb (match twins with [] => true | _ => false end))
+               "C05:handle-rejects-what-checksyntax-accepts"
+       | None => []
+       end
      else []
    | None, _, _ => []
    end).
